@@ -295,6 +295,25 @@ def energy_relations(rng, tier):
                            ("lam,K", dict(lam=lam, K=K)), ("lam,M", dict(lam=lam, M=M)), ("K,M", dict(K=K, M=M)), ("E,M", dict(E=Em, M=M))):
                 got = EF.moduliToC(**kw)
                 ev.append(rel("C16:moduli-conversion(%s)" % nm, tag, float(np.max(np.abs(got - ref)) / np.max(np.abs(ref))), 0.0, "eq", atol=1e-8))
+        # modulus conversions at the ends of the admissible range: Poisson's ratio 0 (Lame's first parameter 0) and negative (auxetic)
+        for nu in (0.0, -0.2, 0.45):
+            Em = 150e9; G = Em / (2 * (1 + nu)); tag = "nu=%g" % nu
+            lam = Em * nu / ((1 + nu) * (1 - 2 * nu)); K = Em / (3 * (1 - 2 * nu)); M = lam + 2 * G
+            want = np.zeros((6, 6))
+            want[:3, :3] = lam; want[0, 0] = want[1, 1] = want[2, 2] = lam + 2 * G; want[3, 3] = want[4, 4] = want[5, 5] = G
+            for nm, kw in (("E,nu", dict(E=Em, nu=nu)), ("E,G", dict(E=Em, G=G)), ("E,lam", dict(E=Em, lam=lam)), ("E,K", dict(E=Em, K=K)), ("nu,G", dict(nu=nu, G=G)), ("nu,lam", dict(nu=nu, lam=lam)),
+                           ("nu,K", dict(nu=nu, K=K)), ("nu,M", dict(nu=nu, M=M)), ("G,lam", dict(G=G, lam=lam)), ("G,K", dict(G=G, K=K)), ("G,M", dict(G=G, M=M)),
+                           ("lam,K", dict(lam=lam, K=K)), ("lam,M", dict(lam=lam, M=M)), ("K,M", dict(K=K, M=M)), ("E,M", dict(E=Em, M=M))):
+                if nu == 0.0 and nm == "nu,lam":
+                    continue                    # both zero: not two independent moduli
+                if nu <= 0.0 and nm == "E,M":
+                    continue                    # (E, M) has two solutions, one with each sign of nu (coinciding at 0); the code documents none and returns the positive one
+                try:
+                    got = EF.moduliToC(**kw)
+                    dev = float(np.max(np.abs(got - want)) / np.max(np.abs(want)))
+                except Exception:  # noqa
+                    dev = float("inf")
+                ev.append({"e": "rel", "group": "C16:moduli-conversion(%s)" % nm, "name": tag, "c": "eq" if dev <= 1e-8 else "gt", "want": "eq"})
         # sphere quadrature: monomials x^a y^b z^c with a + b + c <= stated order
         ev += quadrature_relations()
     except Exception as ex:  # noqa
